@@ -52,6 +52,7 @@ type Task struct {
 	inSUT    int    // depth of public SUT calls the harness declared (EnterSUT/LeaveSUT)
 	steps    int
 	prio     int // PCT priority (0: not assigned yet)
+	spin     int // instrumented accesses since the last scheduling point
 }
 
 // mstate models one sync.Mutex / sync.RWMutex.
@@ -617,6 +618,7 @@ func (s *Sim) Run() RunResult {
 			t.want = nil
 		}
 		t.st = stRunning
+		t.spin = 0
 		t.steps++
 		s.running = t
 		s.siteHits[t.site]++
